@@ -343,3 +343,27 @@ func CanonCompares(fns []*Function) int {
 	}
 	return n
 }
+
+// FoldInlined folds constants in the functions named by the "caller <- callee" notes of an inlining pass (an
+// argument that was a constant at the call site may now meet an operation of the inlined body: bits/8 with
+// bits = 128) and merges the jump-only blocks inlining leaves behind.
+func FoldInlined(fns []*Function, inlined []string) {
+	callers := map[string]bool{}
+	for _, n := range inlined {
+		for i := 0; i+4 <= len(n); i++ {
+			if n[i:i+4] == " <- " {
+				callers[n[:i]] = true
+				break
+			}
+		}
+	}
+	for _, f := range fns {
+		if f.Blocks == nil || !callers[f.String()] || f.Recover != nil {
+			continue
+		}
+		foldConstants(f)
+		rebuild(f)
+		simplifyPhis(f)
+		mergeLinearBlocks(f)
+	}
+}
